@@ -154,6 +154,89 @@ theorem C20_sample_rank (all l : List Info) (pre : List Info) (i : Info) (post :
     obtain ⟨j, hj1, hj2⟩ := ih
     exact ⟨j, by simpa [fillRanks] using hj1, hj2⟩
 
+/-- specification of the store after the call: selected samples are removed (take) or marked READ (read), everything
+    else — incl. matching samples beyond `max` — is kept unchanged and in place -/
+def specKeep (insts : List Inst) (m : Masks) (only : Option Nat) (take : Bool) (max : Int) : List Sample → Nat → List Sample
+  | [], _ => []
+  | s :: ss, n =>
+    if (n : Int) = max then s :: ss
+    else if selects insts m only s then
+      (if take then specKeep insts m only take max ss (n + 1)
+       else { s with read := true } :: specKeep insts m only take max ss (n + 1))
+    else s :: specKeep insts m only take max ss n
+
+theorem collectLoop_full_kept (insts : List Inst) (m : Masks) (only : Option Nat) (take : Bool) (max : Int)
+    (l : List Sample) (acc : List Info) (coll : List Inst) (hfull : (acc.length : Int) = max) :
+    (collectLoop insts m only take max l acc coll).1 = l := by
+  induction l with
+  | nil => simp [collectLoop]
+  | cons s ss ih =>
+    unfold collectLoop
+    simp only [hfull, if_true, consKept]
+    rw [ih]
+
+theorem collectLoop_kept (insts : List Inst) (m : Masks) (only : Option Nat) (take : Bool) (max : Int)
+    (l : List Sample) (acc : List Info) (coll : List Inst) :
+    (collectLoop insts m only take max l acc coll).1 = specKeep insts m only take max l acc.length := by
+  induction l generalizing acc coll with
+  | nil => simp [collectLoop, specKeep]
+  | cons s ss ih =>
+    unfold collectLoop specKeep
+    by_cases hfull : (acc.length : Int) = max
+    · simp only [hfull, if_true, consKept]
+      rw [collectLoop_full_kept insts m only take max ss acc coll hfull]
+    · simp only [hfull, if_false]
+      by_cases hsel : selects insts m only s = true
+      · obtain ⟨i, hi⟩ := selects_findInst insts m only s hsel
+        simp only [hsel, if_true, hi]
+        have := ih (acc ++ [mkInfo s i (collTouch coll s.inst s.kind)]) (collTouch coll s.inst s.kind)
+        simp only [List.length_append, List.length_singleton] at this
+        cases take
+        · simp only [Bool.false_eq_true, if_false, consKept]; rw [this]
+        · simp only [if_true]; exact this
+      · simp only [hsel, Bool.false_eq_true, if_false, consKept]
+        rw [ih acc coll]
+
+/-- C20 (effect on the store): after read/take the stored samples are exactly `specKeep`: take removes the returned
+    samples, read marks them READ and keeps them, nothing else changes (also when the call answers NoData) -/
+theorem C20_store_after (s : St) (max : Int) (m : Masks) (only : Option Nat) (take : Bool)
+    (hen : s.enabled = true) (hknown : unknownInst s.insts only = false) :
+    (readOrTake s max m only take).1.samples = specKeep s.insts m only take max s.samples 0 := by
+  have hk := collectLoop_kept s.insts m only take max s.samples [] []
+  unfold readOrTake collect
+  simp only [hen, hknown, Bool.not_true, Bool.false_eq_true, if_false]
+  split <;> exact hk
+
+/-- the specified store after a take has the length of the old store minus the number of returned samples -/
+theorem specKeep_take_length (insts : List Inst) (m : Masks) (only : Option Nat) (max : Int) (l : List Sample) (n : Nat) :
+    (specKeep insts m only true max l n).length + (specSelect insts m only max l n).length = l.length := by
+  induction l generalizing n with
+  | nil => simp [specKeep, specSelect]
+  | cons s ss ih =>
+    unfold specKeep specSelect
+    by_cases hfull : (n : Int) = max
+    · simp [hfull]
+    · simp only [hfull, if_false]
+      by_cases hsel : selects insts m only s = true
+      · simp only [hsel, if_true, List.length_cons]
+        have := ih (n + 1); omega
+      · simp only [hsel, Bool.false_eq_true, if_false, List.length_cons]
+        have := ih n; omega
+
+/-- a read keeps every sample (same data, same order) -/
+theorem specKeep_read_data (insts : List Inst) (m : Masks) (only : Option Nat) (max : Int) (l : List Sample) (n : Nat) :
+    (specKeep insts m only false max l n).map (·.data) = l.map (·.data) := by
+  induction l generalizing n with
+  | nil => simp [specKeep]
+  | cons s ss ih =>
+    unfold specKeep
+    by_cases hfull : (n : Int) = max
+    · simp [hfull]
+    · simp only [hfull, if_false]
+      by_cases hsel : selects insts m only s = true
+      · simp [hsel, ih]
+      · simp [hsel, ih]
+
 /-- the generation-rank invariant of the collection pass: every collected SampleInfo carries the generation counts
     its sample was stored with, and absolute_generation_rank = (current counts of its instance) − (those counts) -/
 def RankOk (insts : List Inst) (x : Info) : Prop :=
